@@ -4,7 +4,7 @@ from __future__ import annotations
 import copy
 from typing import Any, Dict, List
 
-from . import from_tlc, gen_h1, gen_h2
+from . import from_tlc, gen_h1, gen_h2, gen_ws
 
 COMMON_ASSUMPTIONS = [
     "h11/h2/wsproto/priority libraries behave as documented (their server roles are exercised, not re-verified)",
@@ -42,6 +42,8 @@ PROPS: Dict[str, Dict[str, Any]] = {
 PROPS["C04"] = {"monitor": "C04", "generators": [gen_h2.gen_unusual, gen_h2.gen_h2_faults, gen_h1.gen_c06] + H1_GEN}
 PROPS["C08"] = {"monitor": "C08", "generators": [gen_h2.gen_release, gen_h2.gen_flow]}
 PROPS["C09"] = {"monitor": "C09", "generators": [gen_h2.gen_flow, gen_h2.gen_release, gen_h2.gen_h2_basic]}
+PROPS["C10"] = {"monitor": "C10", "generators": [gen_ws.gen_c10]}
+PROPS["C11"] = {"monitor": "C11", "generators": [gen_ws.gen_c11]}
 PROPS["C17"] = {"monitor": "C17", "adapter": "c17",
                 "design": [{"module": "Wsgi", "cfg": "MC_Wsgi.cfg"}],
                 "technique": "TLA+ oracle (Wsgi.tla) model-checked by TLC + TLC validation of real executions of every enumerated case"}
